@@ -676,7 +676,6 @@ func (v *PolicyVerifier) VerifyRelativeForRef(ctx context.Context, firstEntry, l
 		// fix. Entries prior to that one in the queue are considered invalid
 		// and must be skipped
 		fixed := false
-		var fixEntry *rsl.ReferenceEntry
 		invalidIntermediateEntries := []*rsl.ReferenceEntry{}
 		newEntryQueue := []rsl.ReferenceUpdaterEntry{}
 	lookForFixes:
@@ -717,7 +716,6 @@ func (v *PolicyVerifier) VerifyRelativeForRef(ctx context.Context, firstEntry, l
 					if !newEntry.SkippedBy(annotations[newEntry.ID.String()]) {
 						slog.Debug("Fix entry found, proceeding with regular verification workflow...")
 						fixed = true
-						fixEntry = newEntry
 						newEntryQueue = append(newEntryQueue, entries...)
 					}
 				}
@@ -752,9 +750,10 @@ func (v *PolicyVerifier) VerifyRelativeForRef(ctx context.Context, firstEntry, l
 
 		entries = newEntryQueue
 
-		if recordLastVerifiedEntry {
-			v.persistentCache.SetLastVerifiedEntryForRef(fixEntry.RefName, fixEntry.GetNumber(), fixEntry.GetID())
-		}
+		// The fix entry is accepted because it restores the last good
+		// state, whoever recorded it. It isn't recorded as the last
+		// verified entry: verification resuming from it would verify it
+		// as any other entry and reject what was accepted here.
 	}
 
 	return nil
